@@ -385,6 +385,11 @@ def single_task(args):
         order += [(p, "kill") for p in points if not p["proto"]] + [(p, "eio") for p in points if not p["proto"]]
         if limits.get("max_points") is not None:
             order = order[:limits["max_points"]]
+        # a scenario is spread over several tasks (each with its own fault free run): part j takes every n-th point
+        part, nparts = limits.get("part", (0, 1))
+        order = order[part::nparts]
+        if part != 0:
+            out["records"] = []          # the fault free run is reported by part 0 only
         for n, (p, what) in enumerate(order):
             if time.time() > deadline and n >= floor:
                 break
@@ -1154,8 +1159,12 @@ def oracle(ctx):
         T.available_syscalls()
         # ---- (1) single process scenarios: fault free, EIO everywhere, SIGKILL everywhere
         specs = plan_single(ctx)
-        items = [(sp, os.path.join(ctx.tmp, "s%04d" % i), at(0.55), {"max_points": None, "floor": 14 if i < 3 else 0})
-                 for i, sp in enumerate(specs)]
+        items = []
+        for i, sp in enumerate(specs):
+            nparts = 4 if i < 3 else 2
+            for j in range(nparts):
+                items.append((sp, os.path.join(ctx.tmp, "s%04d-%d" % (i, j)), at(0.55),
+                              {"max_points": None, "floor": 4 if i < 3 else 0, "part": (j, nparts)}))
         outs = ctx.parallel(single_task, items)
         for out in outs:
             if out["not_run"]:
@@ -1180,7 +1189,8 @@ def oracle(ctx):
                 _report(ctx, rec["findings"], {"mode": "single", "spec": rec["spec"], "fault": f})
                 rec["_base"] = base
                 _RECORDS["single"].append(rec)
-            ctx.count("single_points", "planned", out["n_points"] * 2)
+            if out["records"] and out["records"][0].get("fault") is None:
+                ctx.count("single_points", "planned", out["n_points"] * 2)
             ctx.count("single_points", "done", out["n_done"])
         phase["single"] = round(time.time() - t0, 1)
         # ---- (2) controlled multi process schedules
